@@ -529,7 +529,10 @@ def impl_cosign(case):
 		transaction = facade.transaction_factory.deserialize(bytes.fromhex(case['tx']))
 		key_pair = facade.KeyPair(PrivateKey(bytes.fromhex(case['secret'])))
 		cosignature = facade.cosign_transaction(key_pair, transaction, case['detached'])
-		return {'hash': facade.hash_transaction(transaction).bytes.hex(), 'cosignature': cosignature.serialize().hex()}
+		parsed = type(cosignature).deserialize(cosignature.serialize())    # as a receiver sees it: signer and signature are codec objects
+		transaction_hash = facade.hash_transaction(transaction)
+		verdict = outcome(lambda: facade.Verifier(parsed.signer_public_key).verify(transaction_hash.bytes, parsed.signature))
+		return {'hash': transaction_hash.bytes.hex(), 'cosignature': cosignature.serialize().hex(), 'verifies': verdict}
 	except Exception as ex:  # pylint: disable=broad-except
 		return {'error': f'crash:{type(ex).__name__}'}
 
@@ -540,6 +543,8 @@ def oracle_cosign(case, out):
 	data, transaction_hash = bytes.fromhex(out['cosignature']), bytes.fromhex(out['hash'])
 	public, signature = reference_sign('sym', bytes.fromhex(case['secret']), transaction_hash)
 	expected = (0).to_bytes(8, 'little') + public + signature + (transaction_hash if case['detached'] else b'')
+	if out['verifies'] != 'T':
+		return f'the parsed cosignature does not verify over the transaction hash under its signer key ({out["verifies"]})'
 	if data != expected:
 		return 'cosignature is not version 0 || signer key || deterministic signature over the 32 hash bytes' + (' || parent hash' if case['detached'] else '')
 	return None if reference_verify('sym', public, transaction_hash, data[40:104]) else 'cosignature does not verify over the transaction hash'
@@ -593,9 +598,382 @@ def oracle_voting(case, out):
 
 
 # ---------------------------------------------------------------------------------------------------------------------
+# the all-zero public key through every verification entry point
+
+# the eight points of order 1, 2, 4, 4, 8, 8, 8, 8 (canonical encodings).  For a key of small order and S = 0 the verification
+# equation degenerates to R = -[h]A, so for every message one of these R makes `R || 0` "valid" for a verifier that lets the key in.
+SMALL_ORDER_POINTS = [
+	'0100000000000000000000000000000000000000000000000000000000000000',
+	'ecffffffffffffffffffffffffffffffffffffffffffffffffffffffffffff7f',
+	'0000000000000000000000000000000000000000000000000000000000000000',
+	'0000000000000000000000000000000000000000000000000000000000000080',
+	'26e8958fc2b227b045c3f489f2ef98f0d5dfac05d3c63339b13802886d53fc05',
+	'26e8958fc2b227b045c3f489f2ef98f0d5dfac05d3c63339b13802886d53fc85',
+	'c7176a703d4dd84fba3c0b760d10670f2a2053fa2c39ccc64ec7fd7792ac037a',
+	'c7176a703d4dd84fba3c0b760d10670f2a2053fa2c39ccc64ec7fd7792ac03fa',
+]
+
+NETWORK_COMBINATIONS = [('sym', 'mainnet'), ('sym', 'testnet'), ('nem', 'mainnet'), ('nem', 'testnet')]
+
+
+def zero_signer(net, data):
+	"""The serialized transaction with the signer public key replaced by 32 zero bytes."""
+	_, key_at = signature_offsets(net)
+	return data[:key_at] + bytes(32) + data[key_at + 32:]
+
+
+def simple_transfer_descriptor(net, fields, signer):
+	descriptor = {
+		'type': 'transfer_transaction_v1', 'signer_public_key': signer, 'fee': fields['fee'], 'deadline': fields['deadline'],
+		'recipient_address': fields['recipient']}
+	if net == 'nem':
+		descriptor.update({'timestamp': fields['timestamp'], 'amount': fields['amount']})
+	return descriptor
+
+
+def signer_in_form(form, data):
+	"""The ways a descriptor may name the signer: CryptoTypes.PublicKey, hex string, raw bytes."""
+	from symbolchain.CryptoTypes import PublicKey
+	return {'crypto': PublicKey(data), 'hex': data.hex().upper(), 'bytes': data}[form]
+
+
+def gen_zero_key_cases(rng, rounds):
+	"""Per network combination: Verifier built from the zero key as CryptoTypes.PublicKey / codec PublicKey(bytes) / codec PublicKey(),
+	facade.verify_transaction on created and on deserialized transactions whose signer is all zero, (Symbol) a parsed cosignature with a
+	zero signer; each with `R || 0` for the eight small-order R (R = 0 gives the all-zero signature) and with an honest signer's signature."""
+	cases = []
+	for round_index in range(rounds):
+		for net, network in NETWORK_COMBINATIONS:
+			facade = facade_of(net, network)
+			secret = rand_bytes(rng, 32)
+			transactions = build_transactions(rng, net, network, secret)
+			rng.shuffle(transactions)
+			special = [item for item in transactions if item[0].startswith(('aggregate', 'multisig'))][:1]
+			chosen = transactions[:1] + [item for item in special if item is not transactions[0]]
+			fields = {
+				'fee': rng.randrange(2 ** 30), 'deadline': rng.randrange(1, 2 ** 31), 'timestamp': rng.randrange(2 ** 31), 'amount': rng.randrange(2 ** 40),
+				'recipient': str(facade.network.public_key_to_address(facade.KeyPair(_private_key(rand_bytes(rng, 32))).public_key))}
+			form = ['crypto', 'hex', 'bytes'][round_index % 3]
+			created = facade.transaction_factory.create(simple_transfer_descriptor(net, fields, signer_in_form(form, bytes(32)))).serialize()
+			targets = [('verifier:crypto', {'payload': rand_bytes(rng, rng.choice([0, 1, 32, 100])).hex()})]
+			targets.append(('verifier:codec', {'payload': rand_bytes(rng, rng.choice([0, 1, 32, 100])).hex()}))
+			targets.append(('verifier:codec-default', {'payload': rand_bytes(rng, rng.choice([0, 1, 32, 100])).hex()}))
+			targets.append(('facade:created', {'tx': created.hex(), 'descriptor': fields, 'signer_form': form}))
+			for kind, data in chosen:
+				targets.append(('facade:deserialized', {'tx': zero_signer(net, data).hex(), 'tx_kind': kind, 'own_signature': rng.randrange(2) == 1}))
+			if net == 'sym':
+				targets.append(('cosignature:parsed', {'hash': rand_bytes(rng, 32).hex(), 'detached': rng.randrange(2) == 1}))
+			for entry, extra in targets:
+				base = {'kind': 'zerokey', 'net': net, 'network': network, 'entry': entry, **extra}
+				message = zero_key_message(base)
+				_, honest = reference_sign(net, secret, message)
+				signatures = [(f'R{index}||0', bytes.fromhex(encoded) + bytes(32)) for index, encoded in enumerate(SMALL_ORDER_POINTS)]
+				signatures.append(('honest-signer', honest))
+				for what, signature in signatures:
+					cases.append({**base, 'what': what, 'signature': signature.hex()})
+	return cases
+
+
+def _private_key(data):
+	from symbolchain.CryptoTypes import PrivateKey
+	return PrivateKey(data)
+
+
+def zero_key_message(case):
+	"""The bytes the property says the signature is checked against, for each entry point (oracle / model side)."""
+	if 'tx' in case:
+		return expected_payload(case)
+	return bytes.fromhex(case['hash'] if 'hash' in case else case['payload'])
+
+
+def impl_zero_key(case):
+	from symbolchain.CryptoTypes import Signature
+	net, entry = case['net'], case['entry']
+	facade = facade_of(net, case['network'])
+	codec = codec_of(net)
+	signature = bytes.fromhex(case['signature'])
+	try:
+		if entry.startswith('verifier:'):
+			keytype = entry.split(':')[1]
+			return outcome(lambda: facade.Verifier(key_object(net, keytype, bytes(32))).verify(
+				bytes.fromhex(case['payload']), signature_object(net, keytype, signature)))
+		if entry == 'facade:created':
+			transaction = facade.transaction_factory.create(
+				simple_transfer_descriptor(net, case['descriptor'], signer_in_form(case['signer_form'], bytes(32))))
+			if transaction.serialize().hex() != case['tx']:
+				return 'unparsable:created-differs'
+			return outcome(lambda: facade.verify_transaction(transaction, Signature(signature)))
+		if entry == 'facade:deserialized':
+			data = bytearray.fromhex(case['tx'])
+			if case['own_signature']:    # the forged signature travels inside the transaction and is handed over as the codec Signature
+				sig_at, _ = signature_offsets(net)
+				data[sig_at:sig_at + 64] = signature
+			transaction = facade.transaction_factory.deserialize(bytes(data))
+			if transaction.signer_public_key.bytes != bytes(32):
+				return 'unparsable:signer-not-zero'
+			handed = transaction.signature if case['own_signature'] else Signature(signature)
+			return outcome(lambda: facade.verify_transaction(transaction, handed))
+		# a cosignature as it arrives from the wire: signer and signature are codec objects
+		cosignature = codec.DetachedCosignature() if case['detached'] else codec.Cosignature()
+		cosignature.version = 0
+		cosignature.signer_public_key = codec.PublicKey(bytes(32))
+		cosignature.signature = codec.Signature(signature)
+		if case['detached']:
+			cosignature.parent_hash = codec.Hash256(bytes.fromhex(case['hash']))
+		parsed = type(cosignature).deserialize(cosignature.serialize())
+		return outcome(lambda: facade.Verifier(parsed.signer_public_key).verify(bytes.fromhex(case['hash']), parsed.signature))
+	except Exception as ex:  # pylint: disable=broad-except
+		return f'crash:{type(ex).__name__}'
+
+
+def model_zero_key(cases):
+	first = []
+	for case in cases:
+		if 'tx' in case:
+			first.append(f'payload sym {seed_of(case).hex()} {case["tx"]}' if case['net'] == 'sym' else f'payload nem {case["tx"]}')
+	payloads = iter(edmodel.query(first))
+	requests = []
+	for case in cases:
+		if 'tx' in case:
+			payload = next(payloads)
+			payload = payload[3:] if payload.startswith('ok:') else payload
+		else:
+			payload = case['hash'] if 'hash' in case else case['payload']
+		requests.append(f'verify {case["net"]} {bytes(32).hex()} {payload or "-"} {case["signature"]}')
+	return edmodel.query(requests)
+
+
+def oracle_zero_key(case, out):
+	"""'... and the all-zero public key are refused': an error or False, never True -- whatever the signature and the entry point."""
+	if out.startswith('unparsable'):
+		return f'the zero-signer transaction could not be set up ({out})'
+	if out == 'T':
+		return f'the all-zero public key is not refused through {case["entry"]}: signature {case["what"]} = {case["signature"]} is accepted'
+	return None
+
+
+# ---------------------------------------------------------------------------------------------------------------------
+# sessions: ONE key pair / account / verifier object used several times
+
+def gen_sign_sessions(rng, count):
+	"""One KeyPair (or facade account) object signs 3-5 payloads / transactions / hashes in a row, the first one again at the end and
+	sometimes twice in a row.  Every signature must be the deterministic reference signature, whatever was signed before."""
+	vias = {'sym': ['facade', 'keypair', 'account', 'cosign-hash'], 'nem': ['facade', 'keypair', 'account']}
+	cases = []
+	for index in range(count):
+		net = 'sym' if index % 2 == 0 else 'nem'
+		network = rng.choice(['mainnet', 'testnet'])
+		secret = rand_bytes(rng, 32)
+		via = vias[net][(index // 2) % len(vias[net])]
+		wanted = rng.randrange(2, 4)
+		if via in ('facade', 'account'):
+			transactions = build_transactions(rng, net, network, secret)
+			rng.shuffle(transactions)
+			chosen = [data.hex() for _, data in transactions[:wanted]]
+		elif via == 'keypair':
+			chosen = [rand_bytes(rng, rng.choice([0, 1, 31, 32, 39, 40, 41, 72, 104, 200, 300])).hex() for _ in range(wanted)]
+		else:
+			chosen = [rand_bytes(rng, 32).hex() for _ in range(wanted)]
+		items = chosen[:1] + (chosen[:1] if rng.randrange(2) else []) + chosen[1:] + chosen[:1]
+		cases.append({'kind': 'sign-session', 'net': net, 'network': network, 'secret': secret.hex(), 'via': via, 'items': items})
+	return cases
+
+
+def impl_sign_session(case):
+	from symbolchain.CryptoTypes import Hash256, PrivateKey, Signature
+	net, via = case['net'], case['via']
+	facade = facade_of(net, case['network'])
+	try:
+		key_pair = facade.KeyPair(PrivateKey(bytes.fromhex(case['secret'])))
+		account = facade.create_account(PrivateKey(bytes.fromhex(case['secret'])))
+		signatures, verdicts = [], []
+		for index, item in enumerate(case['items']):
+			data = bytes.fromhex(item)
+			if via == 'keypair':
+				signature = key_pair.sign(data)
+				verdicts.append(outcome(lambda: facade.Verifier(key_pair.public_key).verify(data, signature)))   # pylint: disable=cell-var-from-loop
+			elif via in ('facade', 'account'):
+				transaction = facade.transaction_factory.deserialize(data)
+				signature = facade.sign_transaction(key_pair, transaction) if via == 'facade' else account.sign_transaction(transaction)
+				verdicts.append(outcome(lambda: facade.verify_transaction(transaction, signature)))   # pylint: disable=cell-var-from-loop
+			else:
+				cosignature = account.cosign_transaction_hash(Hash256(data), index % 2 == 1)
+				signature = Signature(cosignature.signature.bytes)
+				verdicts.append(outcome(lambda: facade.Verifier(cosignature.signer_public_key).verify(data, cosignature.signature)))   # pylint: disable=cell-var-from-loop
+			signatures.append(signature.bytes.hex())
+		public = (key_pair if via in ('keypair', 'facade') else account).public_key.bytes.hex()
+		return {'public': public, 'signatures': signatures, 'verifies': verdicts}
+	except Exception as ex:  # pylint: disable=broad-except
+		return {'error': f'crash:{type(ex).__name__}'}
+
+
+def session_message(case, item):
+	"""The bytes the property says are signed for one item of a session (oracle side)."""
+	if case['via'] in ('facade', 'account'):
+		return expected_payload({'net': case['net'], 'network': case['network'], 'tx': item})
+	return bytes.fromhex(item)
+
+
+def model_sign_sessions(cases):
+	first = []
+	for case in cases:
+		first.append(f'pub {case["net"]} {case["secret"]}')
+		if case['via'] in ('facade', 'account'):
+			first += [f'payload sym {seed_of(case).hex()} {item}' if case['net'] == 'sym' else f'payload nem {item}' for item in case['items']]
+	answers = iter(edmodel.query(first))
+	publics, messages, owners = [], [], []
+	for case in cases:
+		publics.append(next(answers))
+		for item in case['items']:
+			if case['via'] in ('facade', 'account'):
+				answer = next(answers)
+				messages.append(answer[3:] if answer.startswith('ok:') else answer)
+			else:
+				messages.append(item)
+			owners.append((case, publics[-1]))
+	signatures = edmodel.query([
+		f'sign {case["net"]} {case["secret"]} {message or "-"}' if ':' not in message else 'hash sha256 -' for (case, _), message in zip(owners, messages)])
+	verdicts = edmodel.query([
+		f'verify {case["net"]} {public} {message or "-"} {signature}' if ':' not in message else 'hash sha256 -'
+		for (case, public), message, signature in zip(owners, messages, signatures)])
+	results, position = [], 0
+	for case, public in zip(cases, publics):
+		size = len(case['items'])
+		results.append({'public': public, 'signatures': signatures[position:position + size], 'verifies': verdicts[position:position + size]})
+		position += size
+	return results
+
+
+def oracle_sign_session(case, out):
+	if 'error' in out:
+		return f'a signing session raised {out["error"]}'
+	secret = bytes.fromhex(case['secret'])
+	seen = {}
+	for index, item in enumerate(case['items']):
+		message = session_message(case, item)
+		public, expected = reference_sign(case['net'], secret, message)
+		where = f'signature #{index + 1} of {len(case["items"])} produced by one {case["via"]} object'
+		if out['public'] != public.hex():
+			return f'public key {out["public"]} differs from the reference {public.hex()}'
+		if out['signatures'][index] != expected.hex():
+			return f'{where} is not the deterministic reference signature of the documented payload: {out["signatures"][index]} vs {expected.hex()}'
+		if seen.setdefault(item, out['signatures'][index]) != out['signatures'][index]:
+			return f'{where}: signing the same data twice gives two different signatures'
+		if out['verifies'][index] != 'T':
+			return f'{where} does not verify under the signer\'s public key ({out["verifies"][index]})'
+		if not reference_verify(case['net'], public, message, bytes.fromhex(out['signatures'][index])):
+			return f'{where} does not verify under the reference verifier'
+	return None
+
+
+def gen_verify_sessions(rng, signed, count):
+	"""One Verifier object checks a sequence of good and bad (payload, signature) pairs; every verdict must be the one a fresh verifier gives."""
+	cases = []
+	usable = [(case, out) for case, out in signed if 'error' not in out and out.get('verifies') == 'T']
+	for index in range(count):
+		if not usable:
+			break
+		case, out = usable[(index * 7) % len(usable)]
+		net, secret = case['net'], bytes.fromhex(case['secret'])
+		payload, signature = bytes.fromhex(out['payload']), bytes.fromhex(out['signature'])
+		other = rand_bytes(rng, rng.choice([0, 1, 40, 200]))
+		_, other_signature = reference_sign(net, secret, other)
+		pool = [
+			('valid', payload, signature), ('valid', other, other_signature),
+			('payload-bit', flip(payload, rng.randrange(8 * len(payload))), signature),
+			('sigS-bit', payload, flip(signature, 256 + rng.randrange(256))),
+			('sigR-bit', payload, flip(signature, rng.randrange(256))),
+			('S=0', payload, signature[:32] + bytes(32)),
+			('swapped', other, signature), ('swapped', payload, other_signature)]
+		steps = [pool[0]] + [rng.choice(pool) for _ in range(rng.randrange(2, 5))] + [pool[rng.randrange(2)]]
+		cases.append({
+			'kind': 'verify-session', 'net': net, 'network': case['network'], 'public': out['public'], 'keytype': ['crypto', 'codec'][index % 2],
+			'steps': [{'what': what, 'payload': message.hex(), 'signature': value.hex()} for what, message, value in steps]})
+	return cases
+
+
+def impl_verify_session(case):
+	facade = facade_of(case['net'], case['network'])
+	try:
+		verifier = facade.Verifier(key_object(case['net'], case['keytype'], bytes.fromhex(case['public'])))
+	except Exception as ex:  # pylint: disable=broad-except
+		return [f'crash:{type(ex).__name__}'] * len(case['steps'])
+	return [
+		outcome(lambda: verifier.verify(bytes.fromhex(step['payload']), signature_object(case['net'], case['keytype'], bytes.fromhex(step['signature']))))  # pylint: disable=cell-var-from-loop
+		for step in case['steps']]
+
+
+def model_verify_sessions(cases):
+	answers = iter(edmodel.query([
+		f'verify {case["net"]} {case["public"]} {step["payload"] or "-"} {step["signature"]}' for case in cases for step in case['steps']]))
+	return [[next(answers) for _ in case['steps']] for case in cases]
+
+
+def oracle_verify_session(case, out):
+	for index, (step, verdict) in enumerate(zip(case['steps'], out)):
+		where = f'step {index + 1} of {len(case["steps"])} on one Verifier object'
+		if step['what'] == 'valid':
+			if verdict != 'T':
+				return f'{where}: a valid signature is not accepted ({verdict})'
+			if not reference_verify(case['net'], bytes.fromhex(case['public']), bytes.fromhex(step['payload']), bytes.fromhex(step['signature'])):
+				return f'{where}: generator error, the reference verifier refuses the "valid" pair'
+		elif verdict not in ('F', 'reject'):
+			return f'{where}: a signature with a changed or foreign payload / signature ({step["what"]}) gives {verdict}'
+	return None
+
+
+# ---------------------------------------------------------------------------------------------------------------------
+
+EXTRA_KINDS = {    # kind -> (implementation, oracle)
+	'zerokey': (impl_zero_key, oracle_zero_key),
+	'sign-session': (impl_sign_session, oracle_sign_session),
+	'verify-session': (impl_verify_session, oracle_verify_session)}
+
+
+def run_entry_points_and_sessions(check, signed, with_model):
+	"""Zero key through every entry point, signing sessions, verifier sessions.  Shared by run and oracle_only."""
+	rng = check.rng
+	quick = check.tier == 'quick'
+	groups = [
+		('zerokey', gen_zero_key_cases(rng, 1 if quick else 12), model_zero_key, 'EdZ-verify-model-vs-zero-key-entry-points'),
+		('sign-session', gen_sign_sessions(rng, 14 if quick else 300), model_sign_sessions, 'EdZ+Payload-model-vs-signing-session'),
+		('verify-session', gen_verify_sessions(rng, signed, 12 if quick else 400), model_verify_sessions, 'EdZ-verify-model-vs-Verifier-session')]
+	for kind, cases, model_function, correspondence in groups:
+		implementation, oracle = EXTRA_KINDS[kind]
+		outs = [implementation(case) for case in cases]
+		models = model_function(cases) if with_model else [None] * len(cases)
+		for case, out, model in zip(cases, outs, models):
+			if kind == 'zerokey':
+				label = f'zerokey:{case["net"]}:{case["entry"]}:{out}'
+			elif kind == 'sign-session':
+				label = f'sign-session:{case["net"]}:{case["via"]}:{len(case["items"])}'
+			else:
+				label = f'verify-session:{case["net"]}:{case["keytype"]}:{len(case["steps"])}'
+			check.case(label, repr(sorted(case.items())))
+			if with_model and out != model and not (isinstance(out, str) and out.startswith('unparsable')):
+				check.disagree(correspondence, case, out, model)
+			problem = oracle(case, out)
+			if problem:
+				check.fail(signature_of(case), problem, {'case': case, 'observed': out, 'how': 'run.py replay <this file>'})
+		if cases:
+			check.sample({'case': shorten(cases[0]), 'observed': outs[0]})
+
+
+def shorten(case):
+	def short(value):
+		if isinstance(value, str) and len(value) >= 130:
+			return value[:120] + '...'
+		if isinstance(value, list):
+			return [short(item) for item in value]
+		if isinstance(value, dict):
+			return {key: short(item) for key, item in value.items()}
+		return value
+	return short(case)
+
 
 def signature_of(case):
-	return f'{case["kind"]}:{case.get("net", "sym")}:{case.get("what", case.get("tx_kind", ""))}:' \
+	detail = '/'.join(str(case[name]) for name in ('entry', 'via', 'what', 'tx_kind') if name in case)
+	return f'{case["kind"]}:{case.get("net", "sym")}:{detail}:' \
 		+ hashlib.sha256(repr(sorted(case.items())).encode('utf8')).hexdigest()[:12]
 
 
@@ -619,7 +997,13 @@ def run(check, unrecognised):
 	check.extra['rule'] = 'keys x real transactions (transfer, key link, hash lock, namespace registration, aggregate complete/bonded with embedded ' \
 		'transactions and cosignatures on Symbol; transfer v1/v2, multisig modification, multisig with/without cosignatures, cosignature on NEM) x ' \
 		'{mainnet, testnet}; perturbations: single bit of payload / R / S / key, S+kL, S=0, zero key, small-order and non-canonical keys, forged ' \
-		'signature for the neutral key, one bit in the signed serialized transaction; for EVERY valid signature: each bit of the top byte of S and of R, S+2^255, S+2^252, S+kL (k=1..8), S=L-1/L/L+1; cosignatures (attached/detached); voting key trees. ' \
+		'signature for the neutral key, one bit in the signed serialized transaction; for EVERY valid signature: each bit of the top byte of S and of R, S+2^255, S+2^252, S+kL (k=1..8), S=L-1/L/L+1; cosignatures (attached/detached); voting key trees; ' \
+		'key and signature handed over as CryptoTypes objects or as the generated codec objects (sc/nc PublicKey, Signature); the all-zero key through ' \
+		'Verifier(CryptoTypes key / codec key / default-constructed codec key), facade.verify_transaction on created (signer given as PublicKey, hex, ' \
+		'bytes) and deserialized zero-signer transactions (signature passed or taken from the transaction) and a parsed cosignature, each with R||0 ' \
+		'for the 8 small-order R (incl. the all-zero signature) and an honest signer\'s signature, on both networks of both chains; signing sessions ' \
+		'(ONE KeyPair / facade account object signs 3-5 payloads, transactions or cosigned hashes, the first one again later, every signature ' \
+		'against the reference); verifier sessions (ONE Verifier object, valid and perturbed pairs interleaved). ' \
 		'distinct = distinct (kind, arguments)'
 	for module in ('KeyPairOps', 'PayloadOps'):
 		for anchor in unrecognised.get(module, []):
@@ -699,9 +1083,12 @@ def run(check, unrecognised):
 			problem = oracle_voting(case, out)
 			if problem:
 				check.fail(signature_of(case), problem, {'case': case, 'observed': out[:400], 'how': 'run.py replay <this file>'})
+
+		# zero key through every entry point; one key pair / account / verifier object used several times
+		run_entry_points_and_sessions(check, signed, True)
 		check.extra['extraction_cross_checked_cases'] = pending.result()
 
-	for case, out in (signed[:2] + list(zip(verify_cases, verdicts))[:3] + list(zip(voting_cases, voting_outs))[:1]):
+	for case, out in (signed[:1] + list(zip(verify_cases, verdicts))[:1] + list(zip(voting_cases, voting_outs))[:1]):
 		shown = {k: (v if not isinstance(v, str) or len(v) < 130 else v[:120] + '...') for k, v in case.items()}
 		check.sample({'case': shown, 'observed': out if not isinstance(out, str) or len(out) < 200 else out[:200] + '...'})
 	check.extra['parallelism'] = NCPU
@@ -724,6 +1111,7 @@ def oracle_only(check):
 		problem = oracle_verify(case, out)
 		if problem:
 			check.fail(signature_of(case), problem, {'case': case, 'observed': out, 'how': 'run.py replay <this file>'})
+	run_entry_points_and_sessions(check, list(zip(sign_cases, outs)), False)
 
 
 def replay(data):
@@ -738,6 +1126,10 @@ def replay(data):
 	elif kind == 'cosign':
 		out = impl_cosign(case)
 		problem = oracle_cosign(case, out)
+	elif kind in EXTRA_KINDS:
+		implementation, oracle = EXTRA_KINDS[kind]
+		out = implementation(case)
+		problem = oracle(case, out)
 	else:
 		out = impl_voting(case)
 		problem = oracle_voting(case, out)
